@@ -304,13 +304,16 @@ class Compiler:
 
         indexes = []
         names = {target.name: index for index, target in enumerate(targets)}
+        # Only targets appearing in the SELECT targets list can be
+        # referenced by index. These are guaranteed to have a valid name.
+        n_targets = len([target for target in targets if target.name is not None])
 
         for column in pivot_by.columns:
 
             # Process target references by index.
             if isinstance(column, int):
                 index = column - 1
-                if not 0 <= index < len(targets):
+                if not 0 <= index < n_targets:
                     raise CompilationError(f'invalid PIVOT BY column index {column}')
                 indexes.append(index)
                 continue
@@ -329,7 +332,7 @@ class Compiler:
         # Sanity checks.
         if indexes[0] == indexes[1]:
             raise CompilationError('the two PIVOT BY columns cannot be the same column')
-        if indexes[1] not in group_indexes:
+        if group_indexes is None or indexes[1] not in group_indexes:
             raise CompilationError('the second PIVOT BY column must be a GROUP BY column')
 
         return indexes
